@@ -2,6 +2,10 @@
 # Regenerates MANIFEST.json from the table below (kept in one place so it stays valid).
 import json, subprocess
 claimed = {
+ "C11": ("choice-tree DFS over base programs x value sets x every subset of literal sites abstracted to EQU x chain depth x body form x placement; differential against the inlined program", "7/C11"),
+ "C12": ("deviation-bounded choice-tree DFS (bound 1 quick, 2 thorough) over token-wise re-layouts: whitespace at every gap, comments/blank lines at every boundary, line endings, final newline; differential against the canonical layout", "7/C12"),
+ "C14": ("choice-tree DFS over all ordered pairs (and triples over a sub-pool) of label-free statements and all single insertions/deletions; differential concatenation oracle", "7/C14"),
+ "C15": ("choice-tree DFS over all injective renamings of up to 3 symbols into an adversarial name pool x programs x both formats; differential against neutral names, independent COFF reader", "7/C15"),
  "C06": ("choice-tree DFS over all expression trees up to 3 operators x literal set x 3 renderings x operand positions; big-integer reference evaluator", "7/C06"),
  "C16": ("choice-tree DFS over program variants x all ordered pairs of 7 ORG settings; differential relocation oracle with model-known absolute fields", "7/C16"),
  "C17": ("choice-tree DFS over directive choices {none,16,32}^3 x instruction groups x interleaved statements, and the directive at every prelude position; differential oracle against single-mode segments, exact last_bits_wins defect model", "7/C17"),
@@ -13,6 +17,10 @@ claimed = {
  "C05": ("choice-tree DFS over DB/DW/DD operand lists, RESB, ALIGNB x residue x ORG, non-emitting statements; directive reference model", "7/C05"),
 }
 texts = {
+ "C11": "Every non-empty subset of the literal sites of six base programs (immediates, displacements, data items, RESB/ALIGNB/ORG operands, far-pointer parts, port numbers; values on both sides of encoding boundaries) is replaced by EQU names with chains of depth 1..4, three body forms and two placements; the output must be byte-identical to the inlined program. 4320 variants, exhaustive within those bounds.",
+ "C12": "Every layout that differs from the canonical one in at most 1 (thorough: 2) places - alternative whitespace at any of the token gaps, one of ten comment/blank-line variants after any statement, four before the first, CRLF/CR line endings, missing final newline - over 25 base programs covering every statement kind; bytes and error class must equal the canonical layout's. The deviation bound completed is reported.",
+ "C14": "out(A;B) = out(A)||out(B) for all ordered pairs of a 108-statement pool in both modes (thorough: plus all triples over a 20-statement sub-pool), and every single insertion/deletion in two 13-statement programs changes the output by exactly that statement's bytes.",
+ "C15": "All injective assignments of up to three symbols into a 16-name adversarial pool (thorough) over eight programs, flat and WCOFF: flat output byte-identical to the neutral naming, COFF identical except the name fields/string table (read by an independent strict COFF reader).",
  "C06": "Every expression tree with up to 2 (thorough: 3) binary operators over a boundary literal set, in three renderings, is assembled through DD and compared with an arbitrary-precision reference evaluator; a reduced set is placed in every other operand position (DB/DW, immediates, displacements around a register term, RESB, EQU bodies and chains, ORG). Zero divisors must be diagnosed. Exhaustive within the stated bounds.",
  "C16": "For every program variant and every ordered pair of origins the second output must equal the first with the origin difference added at exactly the absolute fields (positions known from sentinels) and be identical elsewhere, including branch displacements and length; no ORG must equal ORG 0.",
  "C17": "All 27 directive assignments over three segments x 10 mode-sensitive instruction groups x 7 interleaved neutral statements: the output must equal the concatenation of the segments assembled alone under the mode in force; plus the directive at each of 6 prelude positions.",
@@ -24,6 +32,10 @@ texts = {
  "C05": "Every operand list up to the stated length over a 27-item boundary alphabet (and rotations up to length 64), every RESB/ALIGNB/residue/ORG combination and every non-emitting statement is assembled by the real pipeline and compared byte for byte with a directive model; the location counter is compared with the emitted length. Exhaustive within the stated bounds.",
 }
 notes = {
+ "C11": "Differential; the inlined program is the reference.",
+ "C12": "Differential; the canonical layout is the reference. Known findings: a label that is the first statement of the file cannot be preceded by indentation, a comment line (parse error) or a blank line (whole file silently ignored).",
+ "C14": "Differential; single-statement assembly under the same BITS header is the reference.",
+ "C15": "Differential; names restricted to [A-Za-z0-9_] as the property's quantifier states (a dotted name breaks text/template label substitution but is outside the quantifier).",
  "C06": "Trusted: the reference evaluator (math/big), DD/DB/DW emission (C05), x86ref for immediates/displacements. Values leaving int64 are not judged.",
  "C16": "Trusted: sentinel framing, the layout of the test programs (absolute fields directly after sentinels; MOV r16,imm16 = opcode+iw).",
  "C17": "Differential: single-mode assembly is the reference (its correctness is C01's). Known finding C17-F01 (emission uses the last BITS of the file) is recognised only by exact equality with its defect model.",
